@@ -317,8 +317,11 @@ class ConcreteWorld(World):
         return bool(v)
 
     def run_coro(self, c):
+        import inspect
         if isinstance(c, NativeCoro):
             return c.run()
+        if inspect.iscoroutine(c):
+            return NativeCoro(c).run()
         raise TypeError("not a coroutine")
 
     def assume(self, cond):
